@@ -102,6 +102,19 @@ func famTry() {
 					envs = append(envs, randEnv(r))
 				}
 			}
+			// a caller's fetcher may hand out values of Go types the engine has no case for (a plain int from
+			// a JSON / DB layer): Eval and TryEval must treat them alike
+			if id%4 == 3 {
+				envs = append([]Env{}, envs...)
+				for k := range envs {
+					e2 := Env{}
+					for n, v := range envs[k] {
+						e2[n] = v
+					}
+					e2[[]string{"n", "m"}[(id/4+k)%2]] = int(3)
+					envs[k] = e2
+				}
+			}
 			er := []interface{}{}
 			tries := []interface{}{}
 			for ei, env := range envs {
@@ -122,6 +135,10 @@ func famTry() {
 						splits = append(splits, r.Intn(1<<uint(nv)))
 					}
 				}
+				// some records reuse ONE context object for all splits of a binding (a caller that keeps its
+				// context while more variables arrive): every answer is for what is available at that call
+				shared := &Fetcher{Vals: env, Log: c.log}
+				sharedCtx := &eval.Ctx{VariableFetcher: shared}
 				for _, sp := range splits {
 					avail := map[string]bool{}
 					av := []interface{}{}
@@ -136,9 +153,13 @@ func famTry() {
 					}
 					tr := M{"e": ei + 1, "av": av, "lib": ""}
 					c.log.reset()
-					f := &Fetcher{Vals: env, Avail: avail, Log: c.log}
+					ctx := &eval.Ctx{VariableFetcher: &Fetcher{Vals: env, Avail: avail, Log: c.log}}
+					if id%3 == 1 {
+						shared.Avail = avail
+						ctx = sharedCtx
+					}
 					tr["res"] = safely(func() M {
-						v, err := c.expr.TryEval(&eval.Ctx{VariableFetcher: f})
+						v, err := c.expr.TryEval(ctx)
 						return outcome(v, err)
 					})
 					drain(c.expr)
@@ -198,7 +219,7 @@ func famTry() {
 			// the same through the library's own contexts (NewCtxFromVars): a slice context when the
 			// registered keys fit 0..255 (every registered variable is then available), else a map
 			// context (available = present in the value map)
-			if o.Events == "" && c.expr != nil && len(envs) > 0 {
+			if o.Events == "" && c.expr != nil && len(envs) > 0 && id%4 != 3 { // (a library context unifies the Go types of its values: not with foreign-typed bindings)
 				tries = append(tries, libTries(r, src, o, vnames, envs, prop)...)
 			}
 			rec["envs"], rec["tries"] = er, tries
